@@ -18,6 +18,8 @@ CONSTANTS Clients, Workers,   \* Workers = thread identities the pool may ever c
           PoolSize,           \* initial dgq_thread_pool_size (thread budget)
           MaxTids,            \* WORKQ_MAX_TRACKED_TIDS - target_runnable: how far below 0 the monitor may push the budget
           MaxMon,             \* bound on the number of monitor ticks explored; 0 = unbounded (the real timer fires at 1 Hz forever)
+          Overcommit,         \* TRUE: an overcommit root queue (what default serial queues target): pending is added to, never
+                              \* refused, and the pool monitor does not watch the queue
           SemCap,             \* the mediator semaphore's value saturates here (sound: surplus permits only cause empty drain passes)
           Mut
 NULL == "null"
@@ -76,7 +78,8 @@ PokeSem(t) ==
     /\ UNCHANGED <<MP, pending, pool, ip, GH>>
 \* non-overcommit: if (!cmpxchg(dgq_pending, 0, remaining)) return;
 PokePending(t) == /\ pc[t] = "poke_pending"
-                  /\ IF pending = 0 THEN pending' = lv[t].rem /\ Go(t, "poke_load") ELSE pending' = pending /\ Go(t, lv[t].ret)
+                  /\ IF Overcommit THEN pending' = pending + lv[t].rem /\ Go(t, "poke_load")        \* os_atomic_add2o(dgq_pending)
+                     ELSE IF pending = 0 THEN pending' = lv[t].rem /\ Go(t, "poke_load") ELSE pending' = pending /\ Go(t, lv[t].ret)
                   /\ UNCHANGED <<MP, pool, sem, ws, lv, ip, GH>>
 \* t_count = load(dgq_thread_pool_size, ordered)
 PokeLoad(t) == /\ pc[t] = "poke_load" /\ SetL(t, "t", pool) /\ Go(t, "poke_clamp")
@@ -148,13 +151,17 @@ DLastStore(w) == /\ pc[w] = "d_last_store" /\ head' = NULL /\ Go(w, "d_last_cas"
 DLastCas(w) == /\ pc[w] = "d_last_cas"
                /\ IF tail = lv[w].hd THEN tail' = NULL /\ Go(w, "invoke") ELSE tail' = tail /\ Go(w, "d_wait_next")
                /\ UNCHANGED <<head, nxt, PL, lv, ip, GH>>
-DWaitNext(w) == /\ pc[w] = "d_wait_next" /\ nxt[lv[w].hd] # NULL /\ SetL(w, "n", nxt[lv[w].hd]) /\ Go(w, "d_store_next")
+DWaitNext(w) == /\ pc[w] = "d_wait_next" /\ nxt[lv[w].hd] # NULL /\ SetL(w, "n", nxt[lv[w].hd])
+                /\ Go(w, IF Mut = "drain_race_no_poke" THEN "d_store_next_nopoke" ELSE "d_store_next")
                 /\ UNCHANGED <<MP, PL, ip, GH>>
 \* store(head, next); _dispatch_root_queue_poke(dq, 1, 0)
 DStoreNext(w) == /\ pc[w] = "d_store_next" /\ head' = lv[w].n
                  /\ IF Mut = "drain_no_poke" THEN lv' = lv /\ Go(w, "invoke")
                     ELSE lv' = [lv EXCEPT ![w].rem = 1, ![w].floor = 0, ![w].ret = "invoke"] /\ Go(w, "poke_probe")
                  /\ UNCHANGED <<tail, nxt, PL, ip, GH>>
+\* (mutant) the raced path publishes the next item but leaves the thread request to "its enqueuer"
+DStoreNextNoPoke(w) == /\ pc[w] = "d_store_next_nopoke" /\ head' = lv[w].n /\ Go(w, "invoke")
+                       /\ UNCHANGED <<tail, nxt, PL, lv, ip, GH>>
 \* the popped item runs on this worker; its body may block until another item has finished
 Invoke(w) == /\ pc[w] = "invoke"
              /\ popped' = [popped EXCEPT ![lv[w].hd] = @ + 1] /\ running' = running \cup {lv[w].hd} /\ done' = done /\ monFires' = monFires
@@ -183,7 +190,7 @@ Exit(w) == /\ pc[w] = "exit" /\ ws' = [ws EXCEPT ![w] = "none"] /\ Go(w, "idle")
 Runnable(w) == ws[w] = "live" /\ ~(pc[w] = "in_item" /\ WaitsFor[lv[w].hd] # NULL /\ WaitsFor[lv[w].hd] \notin done)
 MonitorCond == /\ tail # NULL                                      \* _dispatch_queue_class_probe
                /\ ~\E w \in Workers : Runnable(w)                  \* num_runnable == 0
-Monitor == /\ pc[MON] = "idle" /\ Mut # "no_monitor" /\ (MaxMon = 0 \/ monFires < MaxMon)
+Monitor == /\ pc[MON] = "idle" /\ Mut # "no_monitor" /\ ~Overcommit /\ (MaxMon = 0 \/ monFires < MaxMon)
            /\ MonitorCond
            /\ lv' = [lv EXCEPT ![MON] = [L0 EXCEPT !.rem = 1, !.floor = -MaxTids, !.ret = "idle"]]
            /\ Go(MON, "poke_probe") /\ monFires' = (IF MaxMon = 0 THEN 0 ELSE monFires + 1)
@@ -192,7 +199,7 @@ Monitor == /\ pc[MON] = "idle" /\ Mut # "no_monitor" /\ (MaxMon = 0 \/ monFires 
 Poke(t) == PokeProbe(t) \/ PokeSem(t) \/ PokePending(t) \/ PokeLoad(t) \/ PokeClamp(t) \/ PokeCas(t) \/ PokeCreate(t)
 ClientStep(c) == Start(c) \/ Return(c) \/ PushTail(c) \/ PushPrev(c) \/ Poke(c)
 WorkerStep(w) == WStart(w) \/ DrainXchg(w) \/ DEmptyCas(w) \/ DEmptyTail(w) \/ DQuiesce(w) \/ DLost(w) \/ DNext(w)
-                 \/ DLastStore(w) \/ DLastCas(w) \/ DWaitNext(w) \/ DStoreNext(w) \/ Invoke(w) \/ ItemEnd(w)
+                 \/ DLastStore(w) \/ DLastCas(w) \/ DWaitNext(w) \/ DStoreNext(w) \/ DStoreNextNoPoke(w) \/ Invoke(w) \/ ItemEnd(w)
                  \/ Park(w) \/ Exit(w) \/ Poke(w)
 Next == (\E c \in Clients : ClientStep(c)) \/ (\E w \in Workers : WorkerStep(w) \/ ParkTimeout(w)) \/ Monitor \/ Poke(MON)
 Spec == Init /\ [][Next]_vars
@@ -210,7 +217,7 @@ AllPushed == \A c \in Clients : ip[c] > Len(Prog[c])
 Settled == /\ \A c \in Clients : pc[c] = "idle"
            /\ \A w \in Workers : pc[w] \in {"idle", "parked"} \/ (pc[w] = "in_item" /\ ~Runnable(w))
            /\ pc[MON] = "idle"
-NoStrand == (Settled /\ AllPushed /\ (~MonitorCond \/ Mut = "no_monitor")) => tail = NULL
+NoStrand == (Settled /\ AllPushed /\ (~MonitorCond \/ Mut = "no_monitor" \/ Overcommit)) => tail = NULL
 \* C01, last clause: every pushed item runs, however the pool threads block on later items
 Live == <>(done = Items)
 =============================================================================
